@@ -1,6 +1,6 @@
 (** C12 - AS-IS models of the algorithms anchored by the property (definitions only).
     Transcribed from integer/src/root_ops.rs, integer/src/log.rs, integer/src/remove.rs,
-    base/src/ring/gcd.rs (after the repairs F01-F07; the pre-repair variants are kept as [*_prefix]). *)
+    base/src/ring/gcd.rs (after the repairs F01-F08; the pre-repair variants are kept as [*_prefix]). *)
 From Dashu Require Import Base.Prelude Int.GrlSpec.
 Open Scope Z_scope.
 
@@ -23,9 +23,17 @@ Fixpoint newton_down (fuel : nat) (x n g f : Z) : result Z :=
   | S k => if f <? g then newton_down k x n f (newton_next x n f) else Ok g
   end.
 
-Definition newton_root (fuel : nat) (x n : Z) : result Z :=
-  let g0 := 2 ^ (bit_len x / n) in
+Definition newton_root_from (fuel : nat) (x n g0 : Z) : result Z :=
   rbind (newton_up fuel x n g0 (newton_next x n g0)) (fun gf => newton_down fuel x n (fst gf) (snd gf)).
+
+(** the first guess [1 << ((bits - 1) / n + 1)] = 2^ceil(bits/n), an overestimate (repair F08) *)
+Definition newton_g0 (x n : Z) : Z := 2 ^ ((bit_len x - 1) / n + 1).
+(** before repair F08 the first guess was [1 << (bits / n)], usually below the root: the first step
+    then overshoots by about (root/guess)^(n-1) and the descent only gains a factor 1 - 1/n per step *)
+Definition newton_g0_prefix (x n : Z) : Z := 2 ^ (bit_len x / n).
+
+Definition newton_root (fuel : nat) (x n : Z) : result Z := newton_root_from fuel x n (newton_g0 x n).
+Definition newton_root_prefix (fuel : nat) (x n : Z) : result Z := newton_root_from fuel x n (newton_g0_prefix x n).
 
 Definition nth_root_asis (fuel : nat) (x n : Z) : result Z :=
   if n =? 0 then Panic RootZeroth
